@@ -408,7 +408,7 @@ func (m *Map) ordered(policy int) []*mapEntry {
 type unsupported struct{ msg string }
 
 func errUnsupported(msg string) unsupported { return unsupported{msg} }
-func (u unsupported) Error() string        { return "unsupported: " + u.msg }
+func (u unsupported) Error() string         { return "unsupported: " + u.msg }
 
 // goPanic is a Go-level panic of the interpreted program.
 type goPanic struct {
